@@ -173,14 +173,26 @@ Definition path_clauses (a : acct) (to : Z) (amt : coins) (path : string) : list
    declines by listed custodians (from, target, lower-case hash), transfers whose password was confirmed
    with the matching password, and the accounts that came into being by address rotation *)
 Record log := mkLog { l_appr : list (Z * Z * string); l_decl : list (Z * Z * string); l_conf : list (Z * string); l_rot : list Z;
-                      l_req : list (Z * string) }.   (* transfers requested while the account's password switch was on *)
+                      l_req : list (Z * string);     (* transfers requested while the account's password switch was on *)
+                      l_alias : list (Z * Z);        (* (new address, old address) of every address rotation: one person *)
+                      l_same : list Z }.             (* accounts for whose pending transfer one person voted under two addresses *)
 Definition in3 (f t : Z) (h : string) (l : list (Z * Z * string)) : bool :=
   existsb (fun e => match e with (f', t', h') => (f =? f') && (t =? t') && String.eqb h h' end) l.
 Definition in2 (t : Z) (h : string) (l : list (Z * string)) : bool :=
   existsb (fun e => (t =? fst e) && String.eqb h (snd e)) l.
 Definition count_appr (t : Z) (h : string) (l : list (Z * Z * string)) : Z :=
   Z.of_nat (List.length (filter (fun e => match e with (_, t', h') => (t =? t') && String.eqb h h' end) l)).
-Definition rotated (lg : log) (t : Z) : bool := existsb (Z.eqb t) (l_rot lg).
+(* outside the vote guarantees: touched by an address rotation, or one person voted twice under two addresses *)
+Definition rotated (lg : log) (t : Z) : bool := existsb (Z.eqb t) (l_rot lg) || existsb (Z.eqb t) (l_same lg).
+(* the person behind an address: follow the rotations back to the first address *)
+Definition alias_step (al : list (Z * Z)) (x : Z) : Z := match alist_get x al with Some a => a | None => x end.
+Definition canon (lg : log) (f : Z) : Z := fold_left (fun x _ => alias_step (l_alias lg) x) (l_alias lg) f.
+(* the same person is on record for (t, h) under another address *)
+Definition same_person (lg : log) (f t : Z) (h : string) : bool :=
+  existsb (fun e => match e with (f', t', h') => negb (f =? f') && (canon lg f =? canon lg f') && (t =? t') && String.eqb h h' end)
+          (l_appr lg ++ l_decl lg).
+Definition vote_kind (lg : log) (t : Z) (k : string) : string :=
+  if existsb (Z.eqb t) (l_rot lg) then (k ++ "_rotated")%string else if existsb (Z.eqb t) (l_same lg) then (k ++ "_alias")%string else k.
 (* the record follows a rotated account: entries of [a] are repeated for [nw] *)
 Definition ren3 (a nw : Z) (l : list (Z * Z * string)) : list (Z * Z * string) :=
   map (fun e => match e with (f, _, h) => (f, nw, h) end) (filter (fun e => match e with (_, t, _) => t =? a end) l) ++ l.
@@ -284,43 +296,50 @@ Definition out_clauses (n : nat) (pre post : state) (o : op) : list string :=
 Definition op_clauses (n : nat) (lg : log) (a0 pre post : state) (o : op) : list string * log :=
   match o with
   | OApprove f t hraw =>
-      let kind := if rotated lg t then "approve_rotated"%string else "approve"%string in
+      let kind := vote_kind lg t "approve" in
       let h := to_lower hraw in
       let T := getA pre t in
       let isc := is_custodian T f in
       let dup := in3 f t h (l_appr lg) || in3 f t h (l_decl lg) in
+      let dpp := negb dup && same_person lg f t h in      (* the same person under another address *)
       let vt := voted pre post in
-      let lg1 := if isc && negb dup && vt then mkLog ((f, t, h) :: l_appr lg) (l_decl lg) (l_conf lg) (l_rot lg) (l_req lg) else lg in
+      let lg1 := if isc && negb dup && vt then
+                   if dpp then mkLog (l_appr lg) (l_decl lg) (l_conf lg) (l_rot lg) (l_req lg) (l_alias lg) (t :: l_same lg)
+                   else mkLog ((f, t, h) :: l_appr lg) (l_decl lg) (l_conf lg) (l_rot lg) (l_req lg) (l_alias lg) (l_same lg)
+                 else lg in
       ((if negb isc && negb (state_eqb n pre post) then [cl "only_custodians" kind] else []) ++
        (if isc && dup && vt then [cl "vote_once" kind] else []) ++
+       (if isc && dpp && vt then [cl3 "vote_once" kind "same_person"] else []) ++
        (if paid_without_release pre post t h then [cl "payout_without_release" kind] else []) ++
        (if negb vt && dec T (getA post t) then [cl "reward_without_vote" kind] else []) ++
        (match released pre post t h with
-        | Some tx => release_clauses lg1 pre t h tx (t_votes tx + 1) kind
+        | Some tx => release_clauses lg1 pre t h tx (t_votes tx + 1) (vote_kind lg1 t "approve")
         | None => []
         end), lg1)
   | ODecline f t hraw =>
-      let kind := if rotated lg t then "decline_rotated"%string else "decline"%string in
+      let kind := vote_kind lg t "decline" in
       let h := to_lower hraw in
       let T := getA pre t in
       let isc := is_custodian T f in
       let dup := in3 f t h (l_appr lg) || in3 f t h (l_decl lg) in
+      let dpp := negb dup && same_person lg f t h in
       let vt := voted pre post in
-      let lg1 := if isc && negb dup && vt then mkLog (l_appr lg) ((f, t, h) :: l_decl lg) (l_conf lg) (l_rot lg) (l_req lg) else lg in
+      let lg1 := if isc && negb dup && vt then mkLog (l_appr lg) ((f, t, h) :: l_decl lg) (l_conf lg) (l_rot lg) (l_req lg) (l_alias lg) (l_same lg) else lg in
       ((if negb isc && negb (state_eqb n pre post) then [cl "only_custodians" kind] else []) ++
        (if isc && dup && vt then [cl "vote_once" kind] else []) ++
+       (if isc && dpp && vt then [cl3 "vote_once" kind "same_person"] else []) ++
        (if paid_without_release pre post t h then [cl "payout_without_release" kind] else []) ++
        (if negb vt && dec T (getA post t) then [cl "reward_without_vote" kind] else []) ++
        (match released pre post t h with Some _ => [cl "release" kind] | None => [] end), lg1)
   | OConfirm f t hraw p ph =>
-      let kind := if rotated lg t then "confirm_rotated"%string else "confirm"%string in
+      let kind := vote_kind lg t "confirm" in
       let h := to_lower hraw in
       match pending pre t h with
       | Some tx =>
           (* an accepted confirmation of a pending transfer: the password must be the one of the request
              (given as it is, or as its digest) *)
           let good := String.eqb p (t_pw tx) || String.eqb ph (t_pw tx) in
-          let lg1 := if good then mkLog (l_appr lg) (l_decl lg) ((t, h) :: l_conf lg) (l_rot lg) (l_req lg) else lg in
+          let lg1 := if good then mkLog (l_appr lg) (l_decl lg) ((t, h) :: l_conf lg) (l_rot lg) (l_req lg) (l_alias lg) (l_same lg) else lg in
           ((if good then [] else [cl3 "password" kind "wrong"]) ++
            (if paid_without_release pre post t h then [cl "payout_without_release" kind] else []) ++
            (match released pre post t h with
@@ -330,7 +349,7 @@ Definition op_clauses (n : nat) (lg : log) (a0 pre post : state) (o : op) : list
       end
   | OCreate sg _ _ =>
       (* the owner redefined the settings: requirements recorded for its pending transfers follow the new ones *)
-      ([], mkLog (l_appr lg) (l_decl lg) (l_conf lg) (l_rot lg) (filter (fun e => negb (fst e =? sg)) (l_req lg)))
+      ([], mkLog (l_appr lg) (l_decl lg) (l_conf lg) (l_rot lg) (filter (fun e => negb (fst e =? sg)) (l_req lg)) (l_alias lg) (l_same lg))
   | OSend s to amt _ _ h =>
       let kind := "custody_send"%string in
       let S := getA pre s in
@@ -338,7 +357,7 @@ Definition op_clauses (n : nat) (lg : log) (a0 pre post : state) (o : op) : list
         ((if guarded S && (0 <? n_cust S) then [cl3 "threshold" kind "direct"] else []) ++
          (if flag s_pwd S then [cl3 "password" kind "direct"] else []) ++
          wl_lim_clauses S to amt kind, lg)
-      else ([], if flag s_pwd S then mkLog (l_appr lg) (l_decl lg) (l_conf lg) (l_rot lg) ((s, h) :: l_req lg) else lg)
+      else ([], if flag s_pwd S then mkLog (l_appr lg) (l_decl lg) (l_conf lg) (l_rot lg) ((s, h) :: l_req lg) (l_alias lg) (l_same lg) else lg)
   | OBank s to amt _ =>
       (* the decorator's decision: against the state at the start of the transaction *)
       if dec (getA pre s) (getA post s) then (path_clauses (getA a0 s) to amt "bank_send", lg) else ([], lg)
@@ -356,7 +375,7 @@ Definition op_clauses (n : nat) (lg : log) (a0 pre post : state) (o : op) : list
         then [] else [cl "rotate" "custody_not_moved"]) ++
        (if forallb (fun d => (bal_get d (a_bal B') =? bal_get d (a_bal B) + bal_get d (a_bal A)) && (bal_get d (a_bal A') =? 0)) denoms
         then [] else [cl "rotate" "funds"]),
-       mkLog (ren3 a nw (l_appr lg)) (ren3 a nw (l_decl lg)) (ren2 a nw (l_conf lg)) (a :: nw :: l_rot lg) (ren2 a nw (l_req lg)))
+       mkLog (ren3 a nw (l_appr lg)) (ren3 a nw (l_decl lg)) (ren2 a nw (l_conf lg)) (a :: nw :: l_rot lg) (ren2 a nw (l_req lg)) ((nw, a) :: l_alias lg) (l_same lg))
   | _ => ([], lg)
   end.
 
@@ -393,7 +412,7 @@ Fixpoint decode (n : nat) (s : state) (steps : list ostep) : trace :=
       end
   end.
 
-Definition no_log : log := mkLog [] [] [] [] [].
+Definition no_log : log := mkLog [] [] [] [] [] [] [].
 Definition case_clauses (c : c17_case) : list string :=
   match c with C17 bals steps =>
     let n := List.length bals in dedup (trace_clauses n no_log (-1) (init_state bals) (init_state bals) (decode n (init_state bals) steps)) end.
